@@ -508,6 +508,17 @@ def _multicast_state_clause(w, drv, stats, out):
                 own_ttl.setdefault(r0.ident(), set()).add(r0.ttl)
         types = reg.types()
         for r in tx.msg.records():
+            if r.ttl == 0 and r.type in (wire.T_A, wire.T_AAAA) and r.ident() in own and \
+                    r.ident() in _own_at(evs, tx.t + 1.0) and not any(
+                    t2.host == "R" and t2.multicast and tx.t < t2.t <= tx.t + 1.0 and t2.msg is not None and
+                    any(r2.ttl > 0 and r2.ident() == r.ident() for r2 in t2.msg.records()) for t2 in w.net.trace):
+                # an address is withdrawn although a registered service still has it, and it is not announced again
+                # within the second (the goodbyes of a service that go on while another one of the same host is being
+                # announced heal themselves that way - DESIGN section 6, observations): the peers drop the address
+                out.add("C03.goodbye-for-registered-record", f"{r!r} withdrawn by multicast at {w.rel(tx.t):.6f} although a "
+                        f"registered service still has it ({sorted(reg.s)}); last changes: "
+                        f"{[(round(w.rel(t), 3), kd, a if isinstance(a, str) else a['name']) for t, _, kd, a in evs[max(0, k - 2):k]]}")
+                return
             if r.ttl == 0 or r.type == wire.T_NSEC or r.name.lower() in mutated or \
                     (r.type == wire.T_PTR and r.rdata.lower() in mutated):
                 continue
@@ -526,6 +537,19 @@ def _multicast_state_clause(w, drv, stats, out):
                         f"{[(round(w.rel(t), 3), kd, a if isinstance(a, str) else a['name']) for t, _, kd, a in evs[max(0, k - 2):k]]}",
                         rtype=r.type, enum=r.name.lower() == ENUM)
                 return
+
+
+def _own_at(evs, t):
+    """Identities owned by the services registered at instant t."""
+    reg = ModelRegistry()
+    for te, _, kind, arg in evs:
+        if te > t:
+            break
+        if kind in ("reg", "upd"):
+            reg.register(arg)
+        else:
+            reg.unregister(arg)
+    return {i for sv in reg.s.values() for i in sv.own_idents()}
 
 
 def _history_clause(groups, stats, out):
